@@ -65,6 +65,60 @@ def pick_runs(unit_no, ncases, scheds, tier, cfgname):
     return runs
 
 
+BORROW = os.path.join(HARNESS, "async-borrow")
+
+
+def borrow_part(wd, cli, vhost_dir, envs, cmd, out, trace, owner):
+    """the fixed world harness/async-borrow/w.wit: async exports with `borrow<r>` parameters of an imported resource; every
+    lent handle must come back ([resource-drop]) before task.return / task.cancel.  Events go into the same log."""
+    d = os.path.join(wd, "borrow")
+    os.makedirs(d, exist_ok=True)
+    shutil.copy(os.path.join(BORROW, "w.wit"), os.path.join(d, "w.wit"))
+    funcs = ["peek", "both", "plain"]
+    args = [a for f in funcs for a in ("--async", f"export:t:b/exp#{f}")]
+    gen = run_matrix(cli, [{"lang": "rust", "wit": os.path.join(d, "w.wit"), "out": os.path.join(d, "gen"), "args": args}], workers=1, wd=wd)
+    who = "borrow world (harness/async-borrow/w.wit)"
+    if gen[0]["res"]["status"] != "ok":
+        out.violation("generator:borrow-world", f"the Rust generator fails on {who}: {json.dumps(gen[0]['res'])[:300]}", gen[0]["res"])
+        return 0
+    nat, _ = rexec.nativise(open(os.path.join(d, "gen", "w.rs")).read())
+    open(os.path.join(d, "w_native.rs"), "w").write(nat)
+    shutil.copy(os.path.join(BORROW, "main.rs"), os.path.join(d, "main.rs"))
+    runs = [{"f": f, "yields": y, "cancel_at": c} for f in funcs for y in (0, 1, 2) for c in range(0, y + 1)]
+    json.dump({"cases": [{"imports": {}, "exports": {}}], "runs": runs}, open(os.path.join(d, "vector.json"), "w"))
+    pre, argv = rustprobe.replay(envs, cmd, os.path.join(d, "main.rs"), os.path.join(d, "bin"), emit="link",
+                                 extra=["--extern", f"vhost={os.path.join(vhost_dir, 'libvhost.rlib')}", "-L", f"dependency={os.path.join(vhost_dir, 'deps')}"])
+    r = run_commands([("b", pre + argv)], wd, workers=1, timeout_ms=900000)["b"]
+    if r["rc"] != 0:
+        err = r.get("stderr_head", "") + r["stderr"]
+        first = next((l for l in err.splitlines() if l.startswith("error")), err[-300:])
+        out.violation("compile:borrow-world:" + re.sub(r"\d+", "N", first)[:100], f"the bindings of {who} + test do not compile natively: {first[:300]}", {"stderr": err[:3000]})
+        return 0
+    exe = [f for f in glob.glob(os.path.join(d, "bin", "*")) if os.access(f, os.X_OK) and os.path.isfile(f) and not f.endswith(".d")][0]
+    op = os.path.join(d, "out.ndjson")
+    rr = run_commands([("r", ["env", "VERIF_LOW_ARENA=1", f"VERIF_VECTOR={os.path.join(d, 'vector.json')}", f"VERIF_OUT={op}", exe])], wd, workers=1, timeout_ms=300000)["r"]
+    rows = read_ndjson(op) if os.path.exists(op) else []
+    task, done = None, False
+    for row in rows:
+        if "begin" in row:
+            task = int(row["begin"].split(":")[1])
+        elif "done" in row:
+            done = True
+        elif "ev" in row:
+            rd = runs[task] if task is not None and task < len(runs) else None
+            trace.append(row)
+            owner.append((who, f"{rd['f']} with {rd['yields']} yield(s), cancellation at {rd['cancel_at']}" if rd else "?", f"borrow:{rd['f'] if rd else '?'}",
+                          {"wit": open(os.path.join(BORROW, "w.wit")).read(), "run": rd}))
+        elif "problem" in row:
+            rd = runs[task] if task is not None and task < len(runs) else None
+            det = re.sub(r"task:N: ", "", re.sub(r"\d+", "N", re.sub(r"0x[0-9a-f]+", "0xN", row["detail"])))
+            cls = "heap" if row["problem"] in HEAP else "value"
+            out.violation(f"{cls}:{row['problem']}:borrow:{rd['f'] if rd else '?'}:{det[:70]}", f"{who} {rd}: {row['detail'][:400]}", {"run": rd, "detail": row["detail"]})
+    if not done and not any(x.get("problem") == "panic" for x in rows):
+        out.violation("died:borrow-world", f"the test program of {who} died (rc={rr['rc']}, signal={rr.get('signal')}): {(rr.get('stderr_head', '') + rr['stderr'])[-300:]}", {"runs": runs})
+    return len(runs)
+
+
 def run(tier):
     t0 = time.time()
     wd = workdir(PID)
@@ -87,6 +141,8 @@ def run(tier):
     if tier != "quick":
         units = units[::2]            # the deep universe: every other signature, all schedules
     jobs = []
+    if os.environ.get("VERIF_C08_ONLY") == "borrow":      # development aid: only the fixed borrow world
+        units = []
     for n, u in enumerate(units):
         for cfgname in rexec.ASYNC_CONFIGS:
             if cfgname != "both" and n % 3 != (1 if cfgname == "export-only" else 2):
@@ -97,7 +153,7 @@ def run(tier):
             open(os.path.join(d, "w.wit"), "w").write(wit)
             _, aimp, aexp = rexec.ASYNC_CONFIGS[cfgname]
             ncalls = (3 if u["r"]["k"] != "none" else 2) if aimp else 0
-            runs = pick_runs(n, len(u["cases"]), sched[(ncalls, aimp, aexp)], tier, cfgname)
+            runs = pick_runs(n, len(u["cases"]), sched.get((ncalls, aimp, aexp), [("", 0)]), tier, cfgname)
             jobs.append({"n": n, "u": dict(u, defs=defs), "cfg": cfgname, "d": d, "wit": wit, "runs": runs})
     gen = run_matrix(cli, [{"lang": "rust", "wit": os.path.join(j["d"], "w.wit"), "out": os.path.join(j["d"], "gen"),
                             "args": rexec.async_opts(j["cfg"], j["u"]["r"]["k"] != "none")} for j in jobs], workers=16, wd=wd)
@@ -168,7 +224,9 @@ def run(tier):
                 if row["ev"] == "import.call":
                     stats["import_calls"] += 1
                 trace.append(row)
-                owner.append((j, task))
+                run_ = j["runs"][task] if task is not None and task < len(j["runs"]) else None
+                owner.append((ident(j), f"case {run_[0]} schedule {run_[1]}/{run_[2]}" if run_ else "?", f"{j['cfg']}:{sig_shape(j['u'])}",
+                              {"signature": sig_shape(j["u"]), "config": j["cfg"], "wit": j["wit"], "run": run_}))
             elif "problem" in row:
                 run_ = j["runs"][task] if task is not None and task < len(j["runs"]) else None
                 kind = row["problem"]
@@ -188,6 +246,7 @@ def run(tier):
         if not done and not any(x.get("problem") == "panic" for x in rows):
             out.violation(f"died:{j['cfg']}:{sig_shape(j['u'])}", f"the test program of {ident(j)} died (rc={r['rc']}, signal={r.get('signal')}): "
                           f"{(r.get('stderr_head', '') + r['stderr'])[-300:]}", {"wit": j["wit"], "runs": j["runs"]})
+    stats["borrow_world_tasks"] = borrow_part(wd, cli, vhost_dir, envs, cmd, out, trace, owner)
     stats["events"] = len(trace)
     tp = os.path.join(wd, "trace.ndjson")
     write_ndjson(tp, trace)
@@ -195,13 +254,12 @@ def run(tier):
     if t.tagged.get("REJECTED"):
         raise ToolError(f"Trace_AsyncCall did not consume the whole log: {t.tagged['REJECTED'][:1]}")
     for b in t.tagged.get("BREACH", []):
-        j, task = owner[b["at"] - 1]
-        run_ = j["runs"][task] if task is not None and task < len(j["runs"]) else None
+        who, run_desc, keypart, ctx = owner[b["at"] - 1]
         what = b["what"]
         if "(harness" in what:
-            raise ToolError(f"the async host and AsyncCall.tla disagree ({what}) in {ident(j)} run {run_}: event {b['event']}")
-        out.violation(f"breach:{j['cfg']}:{what[:90]}:{sig_shape(j['u'])}", f"{ident(j)} case {run_[0] if run_ else '?'} schedule {run_[1]}/{run_[2]}: {what} -- at event {json.dumps(b['event'])[:200]}",
-                      {"signature": sig_shape(j["u"]), "config": j["cfg"], "wit": j["wit"], "run": run_, "breach": b})
+            raise ToolError(f"the async host and AsyncCall.tla disagree ({what}) in {who} {run_desc}: event {b['event']}")
+        cfgname, _, shape_ = keypart.partition(":")
+        out.violation(f"breach:{cfgname}:{what[:90]}:{shape_}", f"{who} {run_desc}: {what} -- at event {json.dumps(b['event'])[:200]}", dict(ctx, breach=b))
     shutil.rmtree(os.path.join(wd, "units"), ignore_errors=True)
     write_ndjson(os.path.join(wd, "violations.ndjson"), [{"key": k, "desc": d} for k, d, _ in out.violations])
     rc, unlisted = out.finish()
